@@ -554,6 +554,10 @@ func (g *opGen) possibleConditions(parent string) []string {
 			}
 		}
 		if t.Name == parent || g.s.Overlap(t.Name, parent) {
+			// a union condition on a parent that is not that union is a rare shape: emit it rarely
+			if t.Kind == Union && t.Name != parent && g.r.IntN(6) != 0 {
+				continue
+			}
 			out = append(out, t.Name)
 		}
 	}
